@@ -265,7 +265,13 @@ Definition run_case (c : model * list ttp) : list Z :=
                    interb n0 isq [] (sg_ops g0) (sg_ops g))
                    (m_subgraphs (fst c)) (m_subgraphs m')
              | Err _ => true end in
-  flat (JL [Jres (Jlist J_tinsts) r1; Jres J_model r2; JB hyp; JB concl; JB wo; JB (negb wo || sem)]).
+  (* hypotheses of the whole-run C06 theorem (plan_okb, sound) on this plan *)
+  let planok := match r1 with
+                | Ok tis => forallb (fun kg => plan_okb (Z.to_nat (fst kg)) (snd kg) tis)
+                                    (enumerate (m_subgraphs (fst c)))
+                | Err _ => false end in
+  flat (JL [Jres (Jlist J_tinsts) r1; Jres J_model r2; JB hyp; JB concl; JB wo; JB (negb wo || sem);
+            JB (wo && planok)]).
 '''
 
 
@@ -455,11 +461,13 @@ def main():
   mism = []
   hyp_checked = 0
   float_runs = 0
+  plan_runs = 0
   for si, idxs in enumerate(shards):
     got = results[f'graph_{si}']
     for k, i in enumerate(idxs):
       lit, ctx, ji, m_in, m_out, desc, mb = cases[i]
-      jr1, jr2, jhyp, jconcl, jwo, jsem = vlib.unflat(got[k])
+      jr1, jr2, jhyp, jconcl, jwo, jsem, jplan = vlib.unflat(got[k])
+      plan_runs += int(bool(jplan))
       hyp_checked += 1
       float_runs += int(bool(jwo))
       if not jsem:
@@ -494,6 +502,7 @@ def main():
   out = {
       'interface': 'I+T+E', 'evaluations': len(cases), 'theorem_hypotheses_checked_on_inputs': hyp_checked,
       'float_compute_runs_checked_interleaving': float_runs,
+      'float_compute_runs_meeting_whole_run_theorem_hypotheses': plan_runs,
       'distinct_nontrivial': len(nontrivial),
       'n_mismatches': len(mism), 'mismatches': mism[:10],
       'oracle_violations': dedup(viol), 'distribution': dict(dist),
